@@ -17,16 +17,24 @@ def run(ctx):
             raise vlib.Infra("RateLimit mutant %s not detected by the model" % m)
     binp = ctx.build()
     recs, g, d, _ = ctx.gen("RateLimit.tla", "GEN_RateLimit.cfg")
+    params = [r for r in recs if "bandwidth" in r]
+    for r in ctx.run_vh(binp, ["c20-params"], cases=params):
+        ctx.evaluations += 1
+        ctx.nontrivial.add("bandwidth:%s" % r["bandwidth"])
+        if not r["ok"]:
+            ctx.violation("C20:limiter-rate-differs-from-limit", r)
+        else:
+            ctx.traces_ok += 1
     cases = [r for r in recs if "c" in r]
     if q:
-        cases = [r for r in cases if not r.get("big")]
+        cases = [r for r in cases if not r.get("big") and not r.get("fast")]
         # every limit pair at least once, both directions and kinds
         crowd = [r for r in cases if r["c"]["conns"] > 4 and r["exp"]["limited"]]
         churn = [r for r in cases if r["c"].get("churn") and r["exp"]["limited"]]
         cases = vlib.sample_list(ctx.rng, [r for r in cases if r["c"]["conns"] <= 3], 12)
         cases += ([r for r in crowd if r["c"]["dir"] == "download"][:1] + [r for r in crowd if r["c"]["dir"] == "upload"][-1:])
         cases += ([r for r in churn if r["c"]["dir"] == "download"][:1] + [r for r in churn if r["c"]["dir"] == "upload"][-1:])
-        cases += [r for r in recs if r.get("big")]
+        cases += [r for r in recs if r.get("big") or r.get("fast")]
     trace = os.path.join(ctx.work, "rate.ndjson")
     out = ctx.run_vh(binp, ["c20", "--arg", "trace=" + trace], cases=cases, timeout=3000)
     out, crashed = ctx.nocrash(out, "C20:crash")
